@@ -184,6 +184,25 @@ class Ctx:
     @staticmethod
     def _sat(disjunct, pattern):
         """A disjunct (set of 'expr=value' strings) contains an atom matching regex `pattern`."""
+        if isinstance(pattern, tuple):
+            # ("ne", expr regex, value): the path excludes `value` for the expression, whether the
+            # code says so with a wildcard arm (not-in), by naming another variant, or by `!=`
+            kind, erx, val = pattern
+            rx = re.compile(erx)
+            for a in disjunct:
+                lhs, _, rhs = a.rpartition("=")
+                if not rx.search(lhs):
+                    continue
+                if rhs.startswith("('not-in'"):
+                    import ast
+                    try:
+                        if val in ast.literal_eval(rhs)[1]:
+                            return True
+                    except (ValueError, SyntaxError):
+                        pass
+                elif rhs not in ("True", "False") and rhs != str(val):
+                    return True
+            return False
         rx = re.compile(pattern)
         return any(rx.search(a) for a in disjunct)
 
@@ -194,7 +213,7 @@ class Ctx:
         wants = [list(atoms)] + [list(a) for a in (alt or [])]
         ok = bool(disj) and all(any(all(self._sat(d, a) for a in w) for w in wants) for d in disj)
         self.ob(rule, body.key, event, ok,
-                "requires %s; found %s" % (" | ".join(" & ".join(w) for w in wants),
+                "requires %s; found %s" % (" | ".join(" & ".join(str(x) for x in w) for w in wants),
                                             " | ".join(" & ".join(sorted(d)) or "true" for d in disj) or "unreachable"))
         return ok
 
@@ -227,6 +246,29 @@ class Ctx:
             elif kind == "call":
                 out.append((blk, s.show(sym.strip_transparent(s._def_expr(d, 0)))))
         return out
+
+    def true_conditions(self, body):
+        """DNF (list of sets of atom strings) under which a bool-returning function returns true,
+        whatever mix of `==`, `matches!`, `match` or early returns it is written with."""
+        s, pc = self.sym(body)
+        out = set()
+        for d in body.defs().get(0, []):
+            blk, i, kind, node = d
+            if body.is_cleanup(blk) or kind not in ("assign", "call"):
+                continue
+            e = sym.strip_transparent(s._def_expr(d, 0))
+            cb = sym._const_bool(e[1]) if e[0] == "const" else None
+            if cb is False:
+                continue
+            for cs in pc.conditions(blk):
+                if cb is True:
+                    out.add(cs)
+                else:
+                    a = sym.normalise_atom(e, True)
+                    if not any(e2 == a[0] and sym._contradict(v2, a[1]) for (e2, v2) in cs):
+                        out.add(cs | {a})
+        out = sym._absorb(out)
+        return [set(sym.atom_str(e, v, s) for e, v in cs) for cs in out]
 
     # ------------------------------------------------------------------ event finders
     def find_calls(self, body, callee_rx, include_cleanup=False):
